@@ -79,3 +79,61 @@ def file_line(r):
     pre = r.choice(["", "", "", " ", "\t", "  "])
     post = r.choice(["", "", "", " ", "\t", " \t"])
     return pre + base + post
+
+
+import os as _os
+import sys as _sys
+import common as C       # noqa: E402
+os = _os
+sys = _sys
+
+
+def grammar_sentences(r, n):
+    """random sentences of rule 'deriv' (a residue with any of the modification forms of the grammar), drawn from the
+    grammar file itself, alone and inside a small glycan"""
+    sys.path.insert(0, os.path.join(C.VERIF, "tools", "translate"))
+    import gen_grammar
+    _, rules, implicit, table = gen_grammar._parse(C.REPO)
+    rules = dict(rules)
+    lits = {nm: ls for nm, kind, ls in table if kind == "lits"}
+
+    def tok(name):
+        if name == "NUM":
+            return r.choice(["1", "2", "3", "4", "5", "6", "7", "8", "9", "12", "15", "16", "18", "20"])
+        ls = lits.get(name, [])
+        if not ls:
+            return ""
+        # favour the short and the rare
+        return r.choice(ls)
+
+    def expand(e, depth):
+        k = e[0]
+        if k == "lit":
+            return e[1]
+        if k == "ref":
+            if e[1][0].isupper():
+                return tok(e[1])
+            return expand(rules[e[1]], depth + 1) if depth < 8 else ""
+        if k == "eps":
+            return ""
+        if k == "seq":
+            return "".join(expand(x, depth) for x in e[1])
+        if k == "alt":
+            return expand(r.choice(e[1]), depth)
+        if k == "opt":
+            return expand(e[1], depth) if r.random() < 0.5 else ""
+        if k == "star":
+            return "".join(expand(e[1], depth) for _ in range(r.choice([0, 0, 1, 1, 2])))
+        if k == "plus":
+            return "".join(expand(e[1], depth) for _ in range(r.choice([1, 1, 2])))
+        return ""
+
+    out = []
+    for _ in range(n):
+        d = expand(rules["deriv"], 0)
+        if 0 < len(d) < 60:
+            out.append(d)
+            out.append(r.choice([d + "(a1-4)Glc", "Man(a1-3)" + d, d + "(b1-3)[Fuc(a1-4)]GlcNAc b"]))
+    return out
+
+
